@@ -337,6 +337,15 @@ class Executor:
             w.unstash_cache(had)
             CTX.clock, CTX.uuid_n = saved
         CTX.counters["reference_scans"] += 1
+        if self.recorder and F is not None:
+            # a from-scratch scan must have analysed every file it reports; if the recorder does
+            # not see that (the wrapped function was refactored), its sub-oracles are switched off
+            try:
+                if not set(F["codebase"]["files"]) <= set(obs.get("analysed_paths", [])):
+                    self.recorder = False
+                    self.probe("recorder_unreliable")
+            except (KeyError, TypeError):
+                pass
         if key is not None:
             self.fresh_memo[key] = (obs, F, markers)
         return obs, F, markers
